@@ -601,12 +601,68 @@ def rule_R8b(ck):
         rec = ps[0].value[0]
         name = bytes(rec[4]) if isinstance(rec[4], (bytes, bytearray)) else rec[4]
         errs = [e[2] for e in ps[0].reported()]
+        want_path = path if path is not None else (src[:-4] if src.lower().endswith(".mac") else src) + ".wav"
+        if rec[3] != want_path:
+            ck.violation(where, f"make_wav {path!r} in {src}: the file is written to {rec[3]!r}, expected {want_path!r}", construct="wav path", expected=want_path, found=repr(rec[3]))
         if name != want_name.ljust(16, b" "):
             ck.violation(where, f"make_wav {path!r} in {src} (no tape name given): the header name is {name!r}, expected {want_name.ljust(16, b' ')!r} (last path component without '.wav', cut to 16 bytes, space padded)",
                          construct="tape name field", expected=repr(want_name.ljust(16, b" ")), found=repr(name))
         if bool(errs) != want_err:
             ck.violation(where, f"make_wav {path!r} in {src}: the inferred tape name has {len(want_name) + (1 if want_err else 0)}{'+' if want_err else ''} bytes and the diagnostics are {errs}; a name is an error exactly when it exceeds 16 bytes",
                          construct="tape name bound")
+
+
+def rule_R3b(ck):
+    """the two tape formats of the registry: 'bk_wav' is the normal-speed stream, 'bk_turbo_wav' the turbo one - also when
+    encode_as_wav is called without saying which (its default is normal speed)"""
+    repo = ck.repo
+    I = eager_interp(repo, extra={"bk_wav::make_wav_file": lambda I_, f_, a, k: ("wav", a[1])})
+    seen = []
+
+    def hook(I_, f, args, kwargs, node):
+        if isinstance(f, Closure) and f.module.name == "bk_wav" and f.name == "encode_data_bits":
+            seen.append(args[1].name if hasattr(args[1], "name") else repr(args[1]))
+            return b""
+        return NotImplemented
+    I.call_hook = hook
+    cases = [("registry bk_wav", lambda: I.call(I.module_get("formats", "file_formats")["bk_wav"], [BASE, b"ab", b"name            "], {}), "Env"),
+             ("registry bk_turbo_wav", lambda: I.call(I.module_get("formats", "file_formats")["bk_turbo_wav"], [BASE, b"ab", b"name            "], {}), "TurboEnv"),
+             ("encode_as_wav default", lambda: I.call(I.module_get("bk_wav", "encode_as_wav"), [BASE, b"ab", b"name            "], {}), "Env")]
+    for name, call, want in cases:
+        def thunk(call=call):
+            del seen[:]
+            r = call()
+            return r, sorted(set(seen))
+        ps = I.explore(thunk)
+        ck.instance(("tape-format", name), {"case": name, "pulse tables used": repr(ps[0].value[1]) if ps and ps[0].kind == "return" else repr(ps)}, fn="formats::<module>")
+        if len(ps) != 1 or ps[0].kind != "return" or ps[0].value[1] != [want]:
+            ck.violation("bk_wav::encode_as_wav", f"{name}: the stream is built with the pulse tables {ps[0].value[1] if ps and ps[0].kind == 'return' else ps}, expected {want} "
+                                                  "('make_wav' must give a normal-speed tape, 'make_turbo_wav' a turbo one)", construct=f"tape format {name}")
+
+
+def rule_R7u(ck):
+    """default output paths for a source whose '.MAC' suffix is written in upper or mixed case (the suffix test folds case)"""
+    repo = ck.repo
+    I = eager_interp(repo, extra={"devices::resolve_relative_path": lambda I_, f, a, k: a[0]})
+    for src, fmt, ext, want in (("dir/PROG.MAC", "bin", "bin", "dir/PROG.bin"), ("dir/Prog.Mac", "raw", None, "dir/Prog"), ("dir/prog.mac", "bin", "bin", "dir/prog.bin"), ("dir/prog.txt", "bin", "bin", "dir/prog.txt.bin"),
+                                ("dir/mac", "raw", None, "dir/mac"), ("dir/x.mac.mac", "bin", "bin", "dir/x.mac.bin")):
+        appended = []
+
+        def thunk(src=src, fmt=fmt, ext=ext, appended=appended):
+            del appended[:]
+            sh = Shapes(I)
+            comp = Rec(ClassVal("CompilerStub"))
+            comp.fields["emitted_files"] = appended
+            insn = sh.symbol("make_" + fmt)
+            insn.fields["name"] = sh.symbol("make_" + fmt)
+            I.call(I.module_get("metacommands", "add_emitted_file"), [{"filename": src, "compiler": comp, "insn": insn}, None, fmt, ext], {})
+            return list(appended)
+        ps = I.explore(thunk)
+        got = ps[0].value[0][3] if len(ps) == 1 and ps[0].kind == "return" and len(ps[0].value) == 1 else None
+        ck.instance(("default-path", src, fmt), {"source": src, "format": fmt, "default output path": got}, fn="metacommands::add_emitted_file")
+        if got != want:
+            ck.violation("metacommands::add_emitted_file", f"make_{fmt} without a path in {src}: the output goes to {got!r}, expected {want!r} (the source name with its .mac suffix, in any case, replaced)",
+                         construct="default output path case", expected=want, found=repr(got))
 
 
 def rule_R10(ck):
@@ -709,6 +765,8 @@ def run(ck):
     ck.run_rule("C13.R6", "checksum is an end-around-carry sum", 1, rule_R6)
     ck.run_rule("C13.R7", "output path derivation and suffix-strip agreement", 8, rule_R7)
     ck.run_rule("C13.R8", "tape name: encode, 16-byte bound, padding", 2, rule_R8)
+    ck.run_rule("C13.R3b", "registry formats 'bk_wav' / 'bk_turbo_wav' and the default of encode_as_wav select the right pulse tables", 3, rule_R3b)
+    ck.run_rule("C13.R7u", "default output paths: the .mac suffix is recognised in any letter case", 6, rule_R7u)
     ck.run_rule("C13.R8b", "tape name inferred from the output path: component, suffix, 16-byte bound", 7, rule_R8b)
     ck.run_rule("C13.R7d", "'~name' is a device only when registered; every other directive path is relative to the source file", 10, rule_device_paths)
     from ..rules import route
